@@ -224,6 +224,10 @@ def _line_text(mod, line):
     return src[line - 1] if 0 < line <= len(src) else ''
 
 
+def line_text_any(mod, line):
+    return _line_text(mod, line)
+
+
 def line_text(fname, line):
     return _line_text(fname[:-3], line) if fname.endswith('.py') and fname[:-3] in (
         'thread', 'process', 'remote', 'persistent', 'persistent_thread', 'persistent_process', 'persistent_remote', 'worker', 'utils') else ''
